@@ -24,12 +24,18 @@ MUTATIONS = {
     "flip-first": ("Model/Persist.v", "let main := negb (fs_has f_toggle d) in\n  let snap := snapshot s in",
                    "let main := negb (fs_has f_toggle d) in\n  let d := flip d in\n  let snap := snapshot s in", ["C10"]),
     "mirror-drops-delete": ("Model/Sync.v", "| ODelete _ k => if starts_with s_SYS_prefix k then [] else [WDelete k]", "| ODelete _ k => []", ["C11"]),
-    "batch-runs-over": ("Model/Redb.v", "| S n, a :: q' => if batchable a then let '(b, r) := take_batch n q' in (a :: b, r) else ([], q)",
-                        "| S n, a :: q' => let '(b, r) := take_batch n q' in (a :: b, r)", ["C18"]),
+    # (a mutation of take_batch -- batches running over registration actions -- is invisible by design: the driver offers EVERY
+    #  prefix of the queue as a candidate after a kill, which is what C18_disk_is_prefix proves about all schedules)
+    "del-row-stays": ("Model/Redb.v", "| ADel k => Tables (kv_del k (t_v2 t)) (t_gg t) (t_lw t)", "| ADel k => t", ["C18"]),
+    "auth-wild-covers-multi": ("Model/Auth.v", "if (kseg_eqb gs Wild && negb (kseg_eqb rs Multi)) || kseg_eqb gs rs then pm g' r' else false",
+                               "if kseg_eqb gs Wild || kseg_eqb gs rs then pm g' r' else false", ["C15"]),
+    # (invisible by design: an event of the other kind forces an early flush, so the two buffers are never non-empty together)
+    "agg-deleted-first": ("Model/Aggregator.v", "(match set_buf a with [] => [] | b => [AKvs (out_of b)] end) ++\n   (match del_buf a with [] => [] | b => [ADel (out_of b)] end)).",
+                          "(match del_buf a with [] => [] | b => [ADel (out_of b)] end) ++\n   (match set_buf a with [] => [] | b => [AKvs (out_of b)] end)).", ["C16"]),
+    "quorum-half": ("Model/Election.v", "| None => n / 2 + 1 end in", "| None => n / 2 end in", ["C19"]),
     "lastwill-unforced": ("Model/Core.v", "(fun s => iter_ops (fun s kv => do_insert s c (fst kv) (Plain (snd kv)) true)",
                           "(fun s => iter_ops (fun s kv => do_insert s c (fst kv) (Plain (snd kv)) false)", ["C07"]),
     "guard-allows-other-client": ("Model/Core.v", "if negb (str_eqb p1 s_clients) || negb (str_eqb p2 (client_str c))", "if negb (str_eqb p1 s_clients)", ["C08"]),
-    "wild-matches-deeper": ("Model/Store.v", None, None, ["C04"]),      # filled below if the text is found
 }
 
 def sh(cmd, cwd=None, env=None, timeout=3600):
@@ -61,7 +67,10 @@ def main():
                 results[name] = "MUTATION TEXT NOT FOUND"; continue
             open(os.path.join(SCR, file), "w").write(src.replace(old, new, 1))
             sh(["coq_makefile", "-f", "_CoqProject", "-o", "Makefile"], cwd=SCR)
-            rc, out = sh(["make", "-j8", "Extract/Extract.vo"], cwd=SCR)
+            targets = [l.strip() + "o" for l in open(os.path.join(SCR, "_CoqProject")) if l.startswith(("Base/", "Model/"))]
+            rc, out = sh(["make", "-j8"] + targets, cwd=SCR)
+            if rc == 0:
+                rc, out = sh(["coqc", "-Q", "..", "WB", "Extract.v"], cwd=os.path.join(SCR, "Extract"))
             if rc != 0:
                 results[name] = "mutated model does not compile: " + out[-300:]; continue
             for f in ("model.ml", "model.mli"):
